@@ -34,6 +34,13 @@ CHECKS["C03"] = {
     "design": "DESIGN.md 5 C03",
 }
 
+CHECKS["C01"] = {
+    "text": "Theorems over arbitrary event sequences (buy-in, re-buy / add-on also DURING hands, departures, settlements with any number of entries): after every event the seated players' bankrolls sum to brought-in minus taken-out (invariant by induction), and a settlement changes each hand entry's player by exactly that entry's result and nobody else (hand-locality). How settleGame writes a result back is regenerated from table_engine_stage.go on every run (settle_bank); the proofs need old + changed, so the overwrite the code had (Bankroll = Final, defect F1, repaired) makes them fail. Correspondence: real tables of 2..10 seats, three rules/modes, ante / no-SB structures, stacks from 1 chip, 3-8 hands each with folds, all-ins, side pots and busts, membership operations injected at every phase of a hand; the model is run on the observed events and compared bankroll by bankroll; the same conservation / locality predicates are evaluated on the observations; pokerface's result contract (changes sum to zero, entry i = index i) is evaluated on every hand.",
+    "note": "Trusted: Coq kernel + vm_compute; translator for the write-back expression; the hand engine's results enter through the contract result_ok (assumed in the theorem, evaluated on every observed hand); that hand entries denote seated players is C02's subject (a dealt-in player leaving mid-hand, F9, is exercised in C02's isolated stream).",
+    "technique": "Rocq invariant proof over event sequences + write-back expression regenerated from source + event-level differential correspondence",
+    "design": "DESIGN.md 5 C01",
+}
+
 NOT_YET = "not built yet in this round (work in progress; the design claims it, see DESIGN.md 5)"
 
 
@@ -49,7 +56,7 @@ def main():
                   "source_commits": hook_commits, "add_only": True},
         "engines": [
             {"name": "rocq-model", "path": "coq/", "serves_properties": sorted(CHECKS), "kind_free_text": "Coq 8.16.1 development: executable model, decidable specifications, theorems; vm_compute correspondence against Go traces"},
-            {"name": "translator", "path": "translator/", "serves_properties": ["C04", "C17"], "kind_free_text": "go/ast translator regenerating coq/Gen/*.v from /repo on every run"},
+            {"name": "translator", "path": "translator/", "serves_properties": ["C01", "C04", "C17"], "kind_free_text": "go/ast translator regenerating coq/Gen/*.v from /repo on every run"},
             {"name": "harness", "path": "harness/", "serves_properties": sorted(CHECKS), "kind_free_text": "Go drivers (-tags verif) running the real packages and printing traces as Gallina terms"}],
         "checks": [], "not_applicable": [], "notes": "see DESIGN.md; known findings in known_findings.json",
     }
